@@ -13,6 +13,7 @@ mod c03;
 mod c04;
 mod c06;
 mod c07;
+mod c08;
 mod c17;
 
 struct PropDef {
@@ -52,6 +53,11 @@ const PROPS: &[PropDef] = &[PropDef {
     level: "exploration",
     run: c07::run,
     replay: c07::replay,
+}, PropDef {
+    id: "C08",
+    level: "exploration",
+    run: c08::run,
+    replay: c08::replay,
 }, PropDef {
     id: "C17",
     level: "exploration",
@@ -145,7 +151,14 @@ fn main() {
         .find(|p| p.id == pid)
         .unwrap_or_else(|| usage(&format!("unknown property {pid}")));
     let ctx = Ctx::new(def.id, def.level, tier, seed);
-    let code = (def.run)(&ctx);
+    let code = match std::panic::catch_unwind(|| (def.run)(&ctx)) {
+        Ok(code) => code,
+        Err(_) => {
+            let what = vcommon::drv::take_last_panic().unwrap_or_default();
+            eprintln!("vcheck: the check itself crashed (inconclusive): {what}");
+            2
+        }
+    };
     std::process::exit(code);
 }
 
